@@ -1,7 +1,7 @@
 (* C18 — arbitrary rotations (FieldRotator).  ONLY statements, each closed by [exact].
    [rnd] is the representation hook of the model (see model/Rotator.v); theorems that speak about
    values are stated for every hook with rnd x == x (identity, Qred). *)
-From DF Require Import Prelude Rotator C18_machine.
+From DF Require Import Prelude Rotator C18_machine C18_geom.
 Open Scope Q_scope.
 
 (* clear_rotation restores the original field (and the identity rotation) after any history *)
@@ -34,3 +34,96 @@ Print Assumptions C18_compose_in_order.
 Example C18_compose_in_order_nonvacuous :
   no_clear [ORot (M3 (V3 0 (-1) 0) (V3 1 0 0) (V3 0 0 1)) None; ORot mid (Some (N3 1 2 3))].
 Proof. exact I. Qed.
+
+(* the evaluation order used by the checker is the model's function *)
+Theorem C18_fast_eval_is_model : forall rnd nv perm orig R n',
+  rotated_val_fast rnd nv perm orig R n' = rotated_val rnd nv perm orig R n'.
+Proof. exact rotated_val_fast_eq. Qed.
+Print Assumptions C18_fast_eval_is_model.
+
+(* bounding box: per axis the new region has the old centre, contains the image of every corner
+   (centre + R (1/2 s o edges), s a sign vector) and each of its two faces is touched by one *)
+Theorem C18_bbox : forall rnd, (forall x, rnd x == x) -> forall R f,
+  vx (f_pmin f) <= vx (f_pmax f) -> vy (f_pmin f) <= vy (f_pmax f) -> vz (f_pmin f) <= vz (f_pmax f) ->
+  axis_bbox (r0 R) (vx (centre f)) (vx (new_pmin rnd R f)) (vx (new_pmax rnd R f)) (edges f) /\
+  axis_bbox (r1 R) (vy (centre f)) (vy (new_pmin rnd R f)) (vy (new_pmax rnd R f)) (edges f) /\
+  axis_bbox (r2 R) (vz (centre f)) (vz (new_pmin rnd R f)) (vz (new_pmax rnd R f)) (edges f).
+Proof. exact bbox. Qed.
+Print Assumptions C18_bbox.
+
+Example C18_bbox_nonvacuous : let f := Fld (V3 0 0 0) (V3 4 2 1) (N3 4 2 1) (fun _ _ _ _ => 0) in
+  vx (f_pmin f) <= vx (f_pmax f) /\ vy (f_pmin f) <= vy (f_pmax f) /\ vz (f_pmin f) <= vz (f_pmax f).
+Proof. cbn. repeat split; discriminate. Qed.
+
+(* rowimg is the component of the rotated corner *)
+Theorem C18_corner_image : forall rnd, (forall x, rnd x == x) -> forall R c s e,
+  veq (vadd c (mapply rnd R (vscale (1 # 2) (V3 (vx s * vx e) (vy s * vy e) (vz s * vz e)))))
+      (V3 (vx c + rowimg (r0 R) s e) (vy c + rowimg (r1 R) s e) (vz c + rowimg (r2 R) s e)).
+Proof. exact corner_image. Qed.
+Print Assumptions C18_corner_image.
+
+(* linear interpolation reproduces affine functions (hence linear scalar fields between the first and
+   last cell centres, where the eight surrounding grid values are cell values) *)
+Theorem C18_interp_affine : forall rnd, (forall x, rnd x == x) -> forall gx gy gz W x y z ax ay az b,
+  let i := fst (locate rnd gx x) in let j := fst (locate rnd gy y) in let k := fst (locate rnd gz z) in
+  ~ nth (S i) gx 0 - nth i gx 0 == 0 -> ~ nth (S j) gy 0 - nth j gy 0 == 0 -> ~ nth (S k) gz 0 - nth k gz 0 == 0 ->
+  (forall a b' c, (a = i \/ a = S i) -> (b' = j \/ b' = S j) -> (c = k \/ c = S k) ->
+     W a b' c == ax * nth a gx 0 + ay * nth b' gy 0 + az * nth c gz 0 + b) ->
+  interp3 rnd W (locate rnd gx x) (locate rnd gy y) (locate rnd gz z) == ax * x + ay * y + az * z + b.
+Proof. exact interp3_affine. Qed.
+Print Assumptions C18_interp_affine.
+
+(* a cell of the rotated field carries R^ applied to the interpolation of the original components
+   (rotating first and interpolating afterwards, as the code does, is the same) *)
+Theorem C18_interior_value : forall rnd, (forall x, rnd x == x) -> forall gx gy gz n R perm (a : arr) p c,
+  interp_at rnd gx gy gz n (rot_arr rnd 3 R perm a) p c ==
+  rot_comp rnd R perm (fun e => interp_at rnd gx gy gz n a p e) c.
+Proof. exact interp_at_rotates. Qed.
+Print Assumptions C18_interior_value.
+
+Theorem C18_scalar_value : forall rnd gx gy gz n R perm (a : arr) p c,
+  interp_at rnd gx gy gz n (rot_arr rnd 1 R perm a) p c = interp_at rnd gx gy gz n a p c.
+Proof. exact interp_at_scalar. Qed.
+Print Assumptions C18_scalar_value.
+
+(* uniform fields: the interpolant is the uniform value everywhere inside the interpolator's box, so the
+   rotated field carries R^ v there *)
+Theorem C18_uniform : forall rnd, (forall x, rnd x == x) -> forall gx gy gz n (v : nat -> Q) p c,
+  inb1 gx (vx p) && inb1 gy (vy p) && inb1 gz (vz p) = true ->
+  interp_at rnd gx gy gz n (fun _ _ _ e => v e) p c == v c.
+Proof. exact interp_at_uniform. Qed.
+Print Assumptions C18_uniform.
+
+(* zero outside *)
+Theorem C18_outside_zero : forall rnd gx gy gz n (a : arr) p c,
+  (vx p < hd 0 gx \/ last gx 0 < vx p) \/ (vy p < hd 0 gy \/ last gy 0 < vy p) \/ (vz p < hd 0 gz \/ last gz 0 < vz p) ->
+  interp_at rnd gx gy gz n a p c = 0.
+Proof. exact outside_zero. Qed.
+Print Assumptions C18_outside_zero.
+
+(* the component mapped to axis d receives sum_e R_de * (component mapped to axis e) *)
+Theorem C18_permuted_mapping : forall rnd, (forall x, rnd x == x) -> forall R perm v d,
+  is_perm3 perm -> (d < 3)%nat ->
+  rot_comp rnd R perm v (nth d perm 0%nat) ==
+  vnth (mrow R d) 0 * v (nth 0 perm 0%nat) + vnth (mrow R d) 1 * v (nth 1 perm 0%nat) + vnth (mrow R d) 2 * v (nth 2 perm 0%nat).
+Proof. exact permuted_mapping. Qed.
+Print Assumptions C18_permuted_mapping.
+
+Theorem C18_mapping_is_permutation : forall mapping perm, length mapping = 3%nat ->
+  forallb (fun m => match m with Some _ => true | None => false end) mapping = true ->
+  ordered_idx mapping = Some perm -> is_perm3 perm.
+Proof. exact ordered_idx_perm. Qed.
+Print Assumptions C18_mapping_is_permutation.
+
+Example C18_mapping_nonvacuous : ordered_idx [Some 2; Some 0; Some 1]%nat = Some [1; 2; 0]%nat.
+Proof. reflexivity. Qed.
+
+(* accepted exactly: 3-d mesh, scalar, or 3-vector whose every component is mapped to a dimension and
+   whose every dimension carries a component *)
+Theorem C18_refuse : forall nvdim ndim mapping,
+  rotator_accepts nvdim ndim mapping = true <->
+  ndim = 3%nat /\
+  (nvdim = 1%nat \/
+   (nvdim = 3%nat /\ (forall m, In m mapping -> m <> None) /\ exists perm, ordered_idx mapping = Some perm)).
+Proof. exact accepts_iff. Qed.
+Print Assumptions C18_refuse.
